@@ -5,7 +5,16 @@
 //   (a) the Lean model (ops/impl files, one line per operation; floats as C99 hex), and
 //   (b) the property's own statement evaluated here in double precision on the explicit system matrix
 //       P (rows from a separate ProjMatrixByBinUsingRayTracing without symmetries and without cache).
-// Usage: c05_poissonll <seed> <quick|thorough> <opsfile> <implfile>
+// Also covered (each goes to the model as operation lines and has an oracle of its own):
+//   * normalisation with one factor per TOF bin (BinNormalisationFromProjData on TOF data, a TOF efficiency table, chains): the
+//     is_TOF_only_norm -> use_tofsens switch of set_up (`tofsens` lines) and the TOF sensitivity with per-TOF-bin efficiencies;
+//   * set_max_timing_pos_num_to_process below the maximum of the data (the quantities of the requested TOF range);
+//   * with a prior: the full-data compute_objective_function / compute_gradient / accumulate_Hessian_times_input /
+//     add_multiplication_with_approximate_Hessian and all public *_without_penalty functions of the object that holds the prior;
+//   * (subset) sensitivities read from files written by an identical object, and supplied by set_subset_sensitivity_sptr;
+//   * set_up's refusal of unbalanced subsets against an independent count of viewgrams per subset (`balance` lines), the
+//     segment range after set_up (`segrange` lines).
+// Usage: c05_poissonll <seed> <quick|thorough> <opsfile> <implfile>   (scratch files <implfile>.sens_* are removed again)
 #include "stir_fixtures.h"
 #include "common.h"
 #include "stir/recon_buildblock/PoissonLogLikelihoodWithLinearModelForMeanAndProjData.h"
@@ -1517,6 +1526,9 @@ run_orders(Out& o, Case& k, vh::Rng& rng, bool thorough, std::map<std::string, l
                   ++hist["orders-setup-refused"];
                   continue;
                 }
+              if (!recompute && f == 0)
+                // set_up does not compute the sensitivities: TOF normalisation data leave the switch alone (cxx:638)
+                o.line(std::string("tofsens 0 ") + (c.use_tofsens ? "1" : "0") + " " + (k.tof ? "1" : "0") + k.norm_links, obj->get_use_tofsens() ? "1" : "0");
               // (the TOF sensitivity switch as the object has it after set_up: TOF normalisation data turn it on only when set_up computes the sensitivities)
               std::string op = std::string("hist ") + (!k.tof || obj->get_use_tofsens() ? "1" : "0") + " " + (recompute ? "1" : "0") + " " + std::to_string(n) + " "
                                + std::to_string(fill) + " " + std::to_string(fill);
@@ -1796,7 +1808,7 @@ main(int argc, char** argv)
   o.orc = std::fopen((std::string(argv[4]) + ".oracle").c_str(), "w");
   std::map<std::string, long> hist;
 
-  const int ncases = thorough ? 60 : 12;
+  const int ncases = thorough ? 90 : 18;
   int retries = 0;
   for (int ci = 0; ci < ncases; ++ci)
     {
